@@ -475,6 +475,190 @@ def _cls(b, op, pos, si, al):
     return "?"
 
 
+def _retain_buffer_form(ctx, prog, crate, b, kb):
+    """EntryTree::retain with the path kept in ONE String threaded through the recursion (push the node's piece, look,
+    truncate back) instead of a fresh `format!` per node. Decided on the path summaries of the per-node closure and of
+    the per-argument closure (lib/patheval): the content of the buffer, relative to its content P on entry, at every
+    point where it is looked at (filter call, recursion) is P [+ "::" exactly when P is non-empty] + display_name(node)
+    [+ "::" + argument], and it is P again when the closure returns - so every sibling and every argument starts from
+    the same prefix, by induction over the recursion. The node's fate is read off the same summaries."""
+    from lib.patheval import PathEval
+    from lib.symexpr import show
+    S_ = "std::string::String::"
+    BUF = ("upvar", 0, (kb,))
+    par = prog.parent_body(b)
+    MUT = ("clear", "push", "insert", "insert_str", "pop", "remove", "drain", "retain", "replace_range", "extend", "split_off")
+    # the entry length: a capture that the enclosing function computed as len() of the buffer, which it does not modify itself
+    ke = None
+    for k, cn in enumerate(b.captures or []):
+        cp = prog.capture_operand(b, cn)
+        if cp and k != kb and any(z.kind == "call" and z.a == S_ + "len" for z in cp[0].prov.op_src(cp[1])) and "usize" in ((cp[1].get("p") or {}).get("ty") or "usize"):
+            ke = k
+    par_calls = par.live_calls() if par is not None else []
+    par_mut = [c for c in par_calls if c.callee.startswith(S_) and c.callee.rsplit("::", 1)[-1] in MUT + ("push_str", "truncate")]
+    rm_ = [c for c in par_calls if c.callee in ("std::vec::Vec::retain_mut", "std::vec::Vec::retain")]
+    len_ = [c for c in par_calls if c.callee == S_ + "len"]
+    # the enclosing function may do one thing to the buffer itself: cut it back to its entry length after the pass
+    par_restores = len(par_mut) == 1 and par_mut[0].callee == S_ + "truncate" and len(rm_) == 1 and len(len_) == 1 and par.dominates(rm_[0].bb, par_mut[0].bb) and \
+        all(par.dominates(par_mut[0].bb, r_) for r_ in par.returns) and any(z.kind == "call" and z.b == len_[0].bb for z in par.prov.op_src(par_mut[0].args[1])) and \
+        par.dominates(len_[0].bb, rm_[0].bb)
+    if not ctx.check(ke is not None and (not par_mut or par_restores), "R13.3", ["retain", "buffer", "entry-length-captured"],
+                     "the per-node closure does not capture the buffer's length on entry (or the enclosing function modifies the buffer itself: %s)" % [c.callee for c in par_mut], b.where(0)):
+        return
+
+    def simulate(x, buf, entry_len, sums, entry_sym="P", args_leave=None):
+        """Per path: (summary, reads [(kind, content, bb)], final content, snapshots{bb: content}). The buffer starts as
+        [entry_sym]; truncating to the entry length gives ["P"] (P is a prefix of whatever is there: every other cut is to
+        a length taken later); after the per-argument pass it holds what that pass leaves (args_leave), if not restored."""
+        out = []
+        lens = [c for c in x.live_calls() if c.callee == S_ + "len"]
+        for sm in sums:
+            order = {}
+            for i_, bb in enumerate(sm.blocks):
+                order.setdefault(bb, i_)
+            evs = []
+            for callee, args, bb in sm.calls:
+                last = callee.rsplit("::", 1)[-1]
+                if callee.startswith(S_) and args and args[0] == buf:
+                    if last == "push_str":
+                        a = args[1]
+                        piece = "::" if a == ("opaque", 'const:"::"') else ("name" if a[0] in ("sptr", "ptr") and isinstance(a[1][0], tuple) and a[1][0][:2] == ("ret", "entry::tree::EntryTree::display_name") else
+                                                                            ("arg" if a in (("sptr", (2, ())), ("arg", 2, ())) or (a[0] == "sptr" and a[1] == (2, ())) else "?" + show(a)))
+                        evs.append((order[bb], "push", piece, bb))
+                    elif last == "truncate":
+                        evs.append((order[bb], "trunc", args[1], bb))
+                    elif last in MUT:
+                        evs.append((order[bb], "bad", last, bb))
+                elif callee == "entry::tree::EntryTree::retain::retain" and buf in args:
+                    evs.append((order[bb], "read", "recursion", bb))
+                elif callee.startswith("std::ops::Fn") and len(args) == 2 and "Deref>::deref" in str(args[1]):
+                    evs.append((order[bb], "read", "filter", bb))
+                elif callee in ("std::vec::Vec::retain", "std::vec::Vec::retain_mut") and buf in (args[1][1] if len(args) > 1 and args[1][0] == "tuple" else ()):
+                    evs.append((order[bb], "read", "args", bb))
+            for c in lens:
+                if c.bb in order and c.args and {z.label() for z in x.prov.op_src(c.args[0]) if z.kind == "upvar"}:
+                    evs.append((order[c.bb], "len", None, c.bb))
+            evs.sort(key=lambda e: e[0])
+            content, snaps, reads = [entry_sym], {}, []
+            for _o, kind, val, bb in evs:
+                if kind == "push":
+                    content = content + [val]
+                elif kind == "len":
+                    snaps[bb] = list(content)
+                elif kind == "trunc":
+                    if val == entry_len:
+                        content = ["P"]
+                    elif val[0] == "call" and val[1] == S_ + "len" and len(snaps) == 1:
+                        content = list(list(snaps.values())[0])
+                    else:
+                        content = ["?truncate(%s)" % show(val)]
+                elif kind == "bad":
+                    content = ["?" + val]
+                else:
+                    reads.append((val, list(content), bb))
+                    if val == "args" and args_leave is not None:
+                        content = list(args_leave)
+            out.append((sm, reads, content, snaps))
+        return out
+    sums = PathEval(b, max_paths=4000).run()
+    if not ctx.check(bool(sums), "R13.3", ["retain", "buffer", "paths"], "cannot enumerate the paths of the per-node closure", b.where(0)):
+        return
+    EL = ("upvar", 0, (ke,))
+    # what the per-argument pass leaves behind: the node's path when each argument restores it, anything otherwise
+    acls0 = [x_ for x_ in prog.children(b) if x_.kind == "Closure"]
+    args_leave = ["?left-by-the-argument-pass"]
+    if len(acls0) == 1:
+        x0 = acls0[0]
+        kb0 = kl0 = None
+        for k, cn in enumerate(x0.captures or []):
+            cp = prog.capture_operand(x0, cn)
+            ty = ((cp[1].get("p") or {}).get("ty") or "") if cp else ""
+            if "String" in ty:
+                kb0 = k
+            elif cp and any(z.kind == "call" and z.a == S_ + "len" for z in cp[0].prov.op_src(cp[1])):
+                kl0 = k
+        if kb0 is not None and kl0 is not None:
+            fin0 = [f_ for _sm, _r, f_, _s in simulate(x0, ("upvar", 0, (kb0,)), ("upvar", 0, (kl0,)), PathEval(x0).run() or [])]
+            if fin0 and all(f_ == ["P"] for f_ in fin0):
+                args_leave = None       # restored: the node's path again
+    # discipline A: every node restores the parent's path before it returns (then it also starts from it);
+    # discipline B: every node first cuts back to the parent's path, and the enclosing function cuts back once at the end
+    finals_a = [f_ for _sm, _r, f_, _s in simulate(b, BUF, EL, sums, "P", args_leave)]
+    disc_a = all(f_ == ["P"] for f_ in finals_a)
+    entry_sym = "P" if disc_a else "?left-by-the-previous-sibling"
+    ctx.check(disc_a or par_restores, "R13.3", ["retain", "buffer", "restored-for-the-next-sibling"],
+              "the per-node closure returns with the path buffer holding %s and the enclosing function does not cut it back to the parent's path either" %
+              sorted({str(f_) for f_ in finals_a if f_ != ["P"]}), b.where(0))
+    acl_snap = None
+    for sm, reads, final, snaps in simulate(b, BUF, EL, sums, entry_sym, args_leave):
+        empty = None
+        for a, pol in sm.conds:
+            if a[0] == "Eq" and set(a[1:]) == {("int", 0), EL}:
+                empty = pol
+            elif a[0] == "bool" and a[1][0] == "site" and a[1][1].endswith("::is_empty") and a[1][3] and (a[1][3][0] == BUF or "String" in a[1][1]):
+                empty = pol
+        want = ["P", "name"] if empty else ["P", "::", "name"]
+        where = b.where(sm.blocks[-1])
+        ctx.check(empty is not None, "R13.3", ["retain", "buffer", "separator-iff-parent-path-non-empty"],
+                  "a path of the per-node closure does not decide on the parent path being empty (conditions %s)" % [show(a) for a, p_ in sm.conds][:4], where)
+        ctx.check(len(reads) == 1, "R13.3", ["retain", "buffer", "one-look-per-node"], "the buffer is looked at %d times on a path of the per-node closure" % len(reads), where)
+        for kind, content, bb in reads:
+            ctx.check(content == want, "R13.3", ["retain", "filter-sees-display-path"],
+                      "at the %s the path buffer holds %s, expected %s (P = the parent's path)" % (kind, content, want), b.where(bb), detail={"content": content})
+            r = sm.ret
+            if kind == "recursion":
+                okp = r[0] == "un" and r[1] == "Not" and r[2][0] == "site" and r[2][1] == "std::vec::Vec::is_empty" and r[2][3] == (("sptr", (2, ("children",))),) and \
+                    sm.blocks.index(r[2][2]) > sm.blocks.index(bb)
+                ctx.check(okp, "R13.3", ["retain", "parent-kept-iff-children-remain"], "a group node's fate is %s, expected !children.is_empty() after filtering its children" % show(r), where)
+            elif kind == "filter":
+                ctx.check(r[0] == "site" and r[2] == bb, "R13.3", ["retain", "argless-leaf-kept-iff-filter"], "an argument-less leaf's fate is %s, expected the filter's answer" % show(r), where)
+            else:
+                oka = r[0] == "un" and r[1] == "Not" and r[2][0] == "site" and r[2][1] == "std::vec::Vec::is_empty" and "args" in str(r[2][3]) and sm.blocks.index(r[2][2]) > sm.blocks.index(bb)
+                ctx.check(oka, "R13.3", ["retain", "leaf-with-args-kept-iff-args-remain"], "a leaf with arguments has the fate %s, expected !args.is_empty() after args.retain" % show(r), where)
+                acl_snap = (content, snaps)
+    kinds = {k_ for sm, reads, final, snaps in simulate(b, BUF, EL, sums, entry_sym, args_leave) for k_, c_, bb_ in reads}
+    ctx.check(kinds == {"recursion", "filter", "args"}, "R13.3", ["retain", "buffer", "three-node-kinds"], "node kinds handled: %s" % sorted(kinds), b.where(0))
+    # the per-argument closure
+    acls = [x for x in prog.children(b) if x.kind == "Closure"]
+    if not ctx.check(len(acls) == 1 and acl_snap is not None, "R13.3", ["retain", "per-argument-closure"], "per-argument closures: %d" % len(acls), b.where(0)):
+        return
+    x = acls[0]
+    ctx.saw(x)
+    kb2 = kl = None
+    for k, cn in enumerate(x.captures or []):
+        cp = prog.capture_operand(x, cn)
+        ty = ((cp[1].get("p") or {}).get("ty") or "") if cp else ""
+        if "String" in ty:
+            kb2 = k
+        elif cp and any(z.kind == "call" and z.a == S_ + "len" for z in cp[0].prov.op_src(cp[1])):
+            kl = k
+    node_content, snaps = acl_snap
+    ok_len = kl is not None and len(snaps) == 1 and list(snaps.values())[0] == node_content
+    ctx.check(kb2 is not None and ok_len, "R13.3", ["retain", "buffer", "argument-prefix-is-the-node-path"],
+              "the per-argument closure is not given the buffer and its length taken when it holds the node's own path", x.where(0))
+    if kb2 is None or kl is None:
+        return
+    xs = PathEval(x).run()
+    arg_entry = "P" if args_leave is None else "?left-by-the-previous-argument"
+    for sm, reads, final, _s in simulate(x, ("upvar", 0, (kb2,)), ("upvar", 0, (kl,)), xs or [], arg_entry):
+        where = x.where(sm.blocks[-1])
+        ok = len(reads) == 1 and reads[0][0] == "filter" and reads[0][1] == ["P", "::", "arg"]
+        ctx.check(ok, "R13.3", ["retain", "argument-path-is-leaf-path-plus-argument"], "the filter sees %s for an argument, expected the node's path + \"::\" + the argument" % [r_[1] for r_ in reads], where)
+        ctx.check(bool(reads) and sm.ret[0] == "site" and sm.ret[2] == reads[0][2], "R13.3", ["retain", "filter-once-per-argument"], "an argument's fate is not the filter's answer for it", where)
+        # (an argument that does not restore the node's path must start by cutting back to it: then arg_entry is not "P"
+        #  and the content above is only right if that cut came first)
+    ctx.check(bool(xs), "R13.3", ["retain", "buffer", "argument-paths"], "cannot enumerate the paths of the per-argument closure", x.where(0))
+    if par is not None:
+        rm = [c for c in par.live_calls() if c.callee in ("std::vec::Vec::retain_mut", "std::vec::Vec::retain")]
+        ctx.check(len(rm) == 1, "R13.3", ["retain", "applied-to-every-node"], "retain_mut sites: %d" % len(rm), par.where(0))
+    # the buffer starts empty at the root
+    root = prog.body("entry::tree::EntryTree::retain", crate)
+    if root is not None:
+        news = [c for c in root.live_calls() if c.callee in (S_ + "new", S_ + "with_capacity")]
+        muts = [c for c in root.live_calls() if c.callee.startswith(S_) and c.callee.rsplit("::", 1)[-1] in MUT + ("push_str",)]
+        ctx.check(len(news) == 1 and not muts, "R13.3", ["retain", "buffer", "starts-empty"], "the root call does not start from a fresh empty String", root.where(0))
+
+
 def r13_3(ctx, prog, crate):
     cands = [b for b in prog.lib_bodies(crate) if b.path.startswith("entry::tree::EntryTree::retain") and b.kind == "Closure"
              and any(c.callee == "entry::tree::EntryTree::retain::retain" for c in b.live_calls())]
@@ -482,6 +666,10 @@ def r13_3(ctx, prog, crate):
         return
     b = cands[0]
     ctx.saw(b)
+    for k_, cn_ in enumerate(b.captures or []):
+        cp_ = prog.capture_operand(b, cn_)
+        if cp_ and "&mut std::string::String" in ((cp_[1].get("p") or {}).get("ty") or ""):
+            return _retain_buffer_form(ctx, prog, crate, b, k_)
     from .C14 import leaf_arm
     arms = leaf_arm(prog, b, crate)
     if not ctx.check(len(arms) == 1, "R13.3", ["retain", "match-on-node-kind"], "matches on the node kind: %d" % len(arms), b.where(0)):
